@@ -326,6 +326,17 @@ def run(ck):
               '{} branch: inside the per-attribute loop only the attribute being tested is written ({} store(s){})'.format(
                   label, nst, '; whole-dict writes: ' + '; '.join(bulk_bad) if bulk_bad else ''), key='BULK-per-attribute|' + label)
     # ------------------------------------------------------------ block instantiation = merge (shared with C12), induced matching
+    # particles a modification mapping deletes (atomname None) are taken out *after* the edges between placements were added: networkx re-creates a node that
+    # `add_edge` names, so an earlier removal brings the particle back without attributes
+    dmf = idx.mod('vermouth/processors/do_mapping.py').func('do_mapping')
+    dmm = idx.mod('vermouth/processors/do_mapping.py')
+    rm_ = [dmm.stmt_of(c_) for c_ in walk_local(dmf) if isinstance(c_, ast.Call) and call_attr(c_) == 'remove_nodes_from' and u(c_.func.value) == 'graph_out' and
+           c_.args and u(c_.args[0]) == 'to_remove']
+    adders = [dmm.stmt_of(c_) for c_ in walk_local(dmf) if isinstance(c_, ast.Call) and call_attr(c_) in ('add_edge', 'add_edges_from') and u(c_.func.value) == 'graph_out']
+    from ..util import runs_after as _runs_after
+    okrm = len(rm_) == 1 and bool(adders) and all(_runs_after(dmf, a_, rm_[0]) and not _runs_after(dmf, rm_[0], a_) for a_ in adders)
+    ck.ob('PROV-edges', dmm.loc(rm_[0]) if rm_ else dmm.loc(dmf), okrm, 'the particles deleted by a modification mapping are removed once, after every statement that adds edges to the '
+          'output ({} edge-adding statement(s))'.format(len(adders)), key='PROV-edges|removed-after-edges')
     from .c12 import merge_rules
     merge_rules(ck)
     shared.no_monomorphism(ck, ['vermouth/map_parser.py', 'vermouth/processors/do_mapping.py', 'vermouth/graph_utils.py'])
